@@ -503,4 +503,36 @@ theorem normalise_value (m : PMap) (hnd : (m.map (fun p => p.1.name)).Nodup) (n 
   rw [normFrom_value n m [] (by simp) hnd]
   rfl
 
+/-! ### argument lists (eval_expr) -/
+
+theorem assocGet_none_iff {α : Type} (l : List (Sym × α)) (y : Sym) :
+    assocGet l y = none ↔ y ∉ l.map (fun p => p.1) := by
+  induction l with
+  | nil => simp [assocGet]
+  | cons p l ih =>
+    obtain ⟨k, v⟩ := p
+    simp only [assocGet, List.map_cons, List.mem_cons, not_or]
+    by_cases h : y = k
+    · simp [h]
+    · simp [h, ih]
+
+theorem assocGet_some_iff {α : Type} (l : List (Sym × α)) (hnd : (l.map (fun p => p.1)).Nodup)
+    (y : Sym) (v : α) : assocGet l y = some v ↔ (y, v) ∈ l := by
+  induction l with
+  | nil => simp [assocGet]
+  | cons p l ih =>
+    obtain ⟨k, w⟩ := p
+    simp only [List.map_cons, List.nodup_cons] at hnd
+    simp only [assocGet, List.mem_cons, Prod.mk.injEq]
+    by_cases h : y = k
+    · subst h
+      simp only [↓reduceIte, Option.some.injEq, true_and]
+      constructor
+      · intro hw; exact Or.inl hw.symm
+      · rintro (hw | hm)
+        · exact hw.symm
+        · exact absurd (List.mem_map.mpr ⟨(y, v), hm, rfl⟩) hnd.1
+    · simp only [h, ↓reduceIte, false_and, false_or]
+      exact ih hnd.2
+
 end Pharmpy.C07
